@@ -25,7 +25,25 @@ CLAIMED.update({
    technique="Lean 4 proofs of the scheme's exact moment laws + numerical comparison with independent coalescent/equilibrium oracles", ref="5/C01"),
 })
 NOT_YET = {}
+# properties built by sub-tasks: MANIFEST text is taken from notes/Cxx.md (sections **level_claimed.text**, **level_note**,
+# **technique**) once the check has been verified by the owner and listed here
+ACCEPTED_FROM_NOTES = ['C09']
+
+def from_notes(pid):
+    import re
+    txt = open(os.path.join(V, 'notes', pid + '.md')).read()
+    def grab(label, nxt):
+        m = re.search(r'\*\*%s\*\*\s*:?\s*(.*?)(?=\n\s*\*\*(?:%s)\*\*|\n## |\Z)' % (re.escape(label), '|'.join(re.escape(n) for n in nxt)), txt, flags=re.S)
+        return re.sub(r'\s+', ' ', m.group(1)).strip() if m else ''
+    labels = ['level_claimed.category', 'level_claimed.text', 'level_note', 'technique']
+    text = grab('level_claimed.text', labels); note = grab('level_note', labels); tech = grab('technique', labels)
+    if not (text and note and tech):
+        raise SystemExit('notes/%s.md lacks MANIFEST sections' % pid)
+    return dict(text=text, note=note, technique=tech[:300], ref='5/' + pid)
+
 def main():
+    for pid in ACCEPTED_FROM_NOTES:
+        CLAIMED[pid] = from_notes(pid)
     props = [json.loads(l) for l in open(os.path.join(V, 'properties.jsonl'))]
     checks = []
     na = []
